@@ -194,17 +194,6 @@ class Target:
         self.__dict__.update(kw)
 
 
-def _declared_isinstance(obj, cls):
-    """harness stand-ins declare which library classes they stand for (so that the REAL constructors accept them)"""
-    names = getattr(type(obj), "_pycv_instance_of", None)
-    if names is None:
-        return None
-    return any(getattr(t, "__name__", "") in names or t is object for t in sym._unpack_types(cls))
-
-
-sym.ISINSTANCE_HOOKS.insert(0, _declared_isinstance)
-
-
 def construct(O, cls, props, *a, **kw):
     """objects under contract are built by their REAL constructors (what `__init__` stores is what `apply` reads)"""
     st, r = H.call(cls, *a, **kw)
